@@ -228,9 +228,9 @@ def rename (frame : List Name) (mapping : List (Name × Name)) (p : Parent) (dep
 
 /-- `col[n:]` -/
 def slicePrefix (n : Nat) (c : Name) : Name := String.ofList (c.toList.drop n)
-/-- `col[:-n]` (python: `col[:-0]` is the empty string) -/
+/-- `col[: len(col) - n]` (since D38; the former `col[:-n]` was the empty string for `n = 0`) -/
 def sliceSuffix (n : Nat) (c : Name) : Name :=
-  if n = 0 then "" else String.ofList (c.toList.take (c.toList.length - n))
+  String.ofList (c.toList.take (c.toList.length - n))
 
 /-- `AddPrefix/AddSuffix._simplify_up`; `n` = length of the prefix / suffix -/
 def affix (isSuffix : Bool) (n : Nat) (frame : List Name) (p : Parent) (deps : List Dep) : Option Rw :=
